@@ -254,6 +254,8 @@ where
     A: Allocator,
 {
     pub fn with_capacity(capacity: usize, allocator: A) -> Result<Self, MapError> {
+        // find_ind masks with `capacity - 1` and needs at least one empty slot
+        let capacity = pad_pot(capacity.max(2));
         unsafe {
             let (keys, values) = Self::alloc_storage(&allocator, capacity)?;
             let res = Self {
